@@ -14,7 +14,7 @@ import (
 // C14: analytic functions are sequential per partition and isolated across partitions.
 
 type c14In struct {
-	K string
+	K any
 	V *float64 // nil = NULL or missing
 	M bool     // missing (vs explicit NULL)
 }
@@ -136,7 +136,7 @@ func c14Reference(q c14Query, seq []c14In) []map[string]*float64 {
 		}
 		key := "*"
 		if q.Part {
-			key = r.K
+			key = fmt.Sprintf("%T:%v", r.K, r.K)
 		}
 		st := states[key]
 		if st == nil {
@@ -208,8 +208,10 @@ func (c14) Plan(tier string) []fw.Unit {
 
 var c14Vals = []c14In{{V: fp(1)}, {V: fp(2)}, {V: nil}, {V: nil, M: true}}
 
-func c14Seq(idx []int) []c14In {
-	keys := []string{"a", "b", "c"}
+// c14KeySets: string keys, and float64 keys that differ only beyond float32 precision
+var c14KeySets = [][]any{{"a", "b", "c"}, {100000001.0, 100000002.0, 0.5}}
+
+func c14Seq(idx []int, keys []any) []c14In {
 	var out []c14In
 	for _, x := range idx {
 		r := c14Vals[x%len(c14Vals)]
@@ -228,7 +230,7 @@ func c14Desc(seq []c14In) []string {
 		} else if r.M {
 			v = "missing"
 		}
-		out = append(out, r.K+":"+v)
+		out = append(out, fmt.Sprint(r.K)+":"+v)
 	}
 	return out
 }
@@ -246,13 +248,18 @@ func (c14) Run(u fw.Unit) fw.Result {
 	}
 	nsym := 3 * len(c14Vals)
 	idx := 0
-	for L := 1; L <= maxL; L++ {
+	for ksi, keys := range c14KeySets {
+	 keys := keys
+	 if ksi == 1 && !q.Part {
+		continue
+	 }
+	 for L := 1; L <= maxL; L++ {
 		sequences(L, nsym, func(ix []int) {
 			idx++
 			if idx%sp.Shards != sp.Shard {
 				return
 			}
-			seq := c14Seq(ix)
+			seq := c14Seq(ix, keys)
 			var rows []Row
 			for i, r := range seq {
 				rows = append(rows, r.row(i+1))
@@ -307,7 +314,7 @@ func (c14) Run(u fw.Unit) fw.Result {
 				var only []Row
 				var pos []int
 				for i, r := range seq {
-					if r.K == "a" {
+					if r.K == keys[0] {
 						only = append(only, rows[i])
 						pos = append(pos, i)
 					}
@@ -327,6 +334,7 @@ func (c14) Run(u fw.Unit) fw.Result {
 				a.sample(map[string]any{"sql": q.SQL, "rows(k:v)": c14Desc(seq), "results": res})
 			}
 		})
+	 }
 	}
 	return a.result()
 }
@@ -418,7 +426,7 @@ func c14WhenCap(u fw.Unit) fw.Result {
 func (c14) Describe(tier string) fw.Description {
 	return fw.Description{
 		Level: "model_checking",
-		Rule: "6 queries (lag with offsets/defaults + latest; acc_sum/count/avg and acc_max-acc_min; had_changed; v - lag(v) with a non-analytic WHERE; unpartitioned lag/acc/latest; WHERE had_changed(...) with acc_count) x all row sequences of length 1..L over 3 partition keys x v in {1,2,NULL,missing}, through EmitSync on the real engine against per-partition reference state machines; every 5th sequence also through Emit + sync sink (sync == async), every 3rd also with partition a alone (isolation); WHEN gating checked metamorphically over all sequences of length <= 5 over 2 keys x 3 values (values at rows passing WHEN must not depend on rows failing it); partition cap 2 over all 3-key sequences of length 5 (exact within the cap, totality above); non-trivial = the reference defines at least one output",
+		Rule: "6 queries (lag with offsets/defaults + latest; acc_sum/count/avg and acc_max-acc_min; had_changed; v - lag(v) with a non-analytic WHERE; unpartitioned lag/acc/latest; WHERE had_changed(...) with acc_count) x all row sequences of length 1..L over 3 partition keys (strings; and float64 keys differing only beyond float32 precision) x v in {1,2,NULL,missing}, through EmitSync on the real engine against per-partition reference state machines; every 5th sequence also through Emit + sync sink (sync == async), every 3rd also with partition a alone (isolation); WHEN gating checked metamorphically over all sequences of length <= 5 over 2 keys x 3 values (values at rows passing WHEN must not depend on rows failing it); partition cap 2 over all 3-key sequences of length 5 (exact within the cap, totality above); non-trivial = the reference defines at least one output",
 		Bounds:      map[string]any{"max_len": map[string]int{"quick": 4, "thorough": 5}, "keys": 3, "values": []string{"1", "2", "NULL", "missing"}},
 		Assumptions: []string{"definitions of lag/latest/had_changed/acc_* taken from the documentation comments of functions/functions_analytical.go and functions/analytic_acc.go (the online analytic docs are not in the repository)", "a first row with NULL under had_changed(true, v) may count as a change or not"},
 	}
